@@ -1,16 +1,108 @@
+// impl is the implementation side of the correspondence check (DESIGN.md §4.2, Appendix B): it reads
+// one operation per line on stdin, runs it against the real code built from /repo's working tree and
+// prints one canonical line per operation. Panics are outcomes, not crashes.
 package main
 
 import (
+	"bufio"
+	"encoding/hex"
 	"fmt"
-
-	"verifharness/app"
+	"os"
+	"runtime/debug"
+	"strings"
 )
 
-func main() {
-	env, err := app.Boot(app.DefaultConfig())
-	if err != nil {
-		panic(err)
+func hx(s string) string {
+	if len(s) == 0 {
+		return "-"
 	}
-	defer env.Close()
-	fmt.Println("booted", env.Ctx.BlockHeight())
+	return hex.EncodeToString([]byte(s))
+}
+
+func hxb(b []byte) string {
+	if len(b) == 0 {
+		return "-"
+	}
+	return hex.EncodeToString(b)
+}
+
+func unhx(s string) (string, error) {
+	if s == "-" {
+		return "", nil
+	}
+	b, err := hex.DecodeString(s)
+	return string(b), err
+}
+
+func mustUnhx(s string) string {
+	r, err := unhx(s)
+	if err != nil {
+		panic("bad hex in protocol line: " + s)
+	}
+	return r
+}
+
+type driver struct {
+	st        *appState
+	lastPanic string
+}
+
+func (d *driver) handle(line string) (out string) {
+	defer func() {
+		if r := recover(); r != nil {
+			d.lastPanic = fmt.Sprintf("%v\n%s", r, debug.Stack())
+			out = "panic=harness:" + hx(firstLine(fmt.Sprint(r)))
+		}
+	}()
+	f := strings.Fields(line)
+	if len(f) == 0 {
+		return "bad-op"
+	}
+	switch f[0] {
+	case "pure":
+		return pureOp(f[1:])
+	case "panicinfo":
+		return "info=" + hx(d.lastPanic)
+	case "setup":
+		return d.setup(f[1:])
+	case "recv", "recvh", "recvraw", "recvbare", "deposit", "msg", "query", "export", "env", "fault",
+		"genvalidate", "geninit", "reimport", "cmpstacks", "withoutmw", "cb", "msgany", "listrpcs", "swapctl":
+		if d.st == nil {
+			if r := d.setup(nil); r != "ok" {
+				return r
+			}
+		}
+		return d.st.op(d, f)
+	}
+	return "bad-op"
+}
+
+func firstLine(s string) string {
+	if i := strings.IndexByte(s, '\n'); i >= 0 {
+		return s[:i]
+	}
+	return s
+}
+
+func main() {
+	d := &driver{}
+	in := bufio.NewReaderSize(os.Stdin, 1<<20)
+	out := bufio.NewWriterSize(os.Stdout, 1<<16)
+	defer out.Flush()
+	for {
+		line, err := in.ReadString('\n')
+		if len(line) > 0 {
+			line = strings.TrimRight(line, "\r\n")
+			if line != "" && !strings.HasPrefix(line, "#") {
+				fmt.Fprintln(out, d.handle(line))
+				out.Flush()
+			}
+		}
+		if err != nil {
+			break
+		}
+	}
+	if d.st != nil {
+		d.st.close()
+	}
 }
